@@ -3,3 +3,4 @@ pub mod repl;
 pub mod auth;
 pub mod tokens;
 pub mod reset;
+pub mod refs;
